@@ -12,6 +12,7 @@ R = nf.sym("@r")
 DIRECT_SOLVERS = {
     "scipy.sparse.linalg.spsolve", "scipy.linalg.solve_banded", "scipy.linalg.solve", "numpy.linalg.solve",
     "scipy.sparse.linalg.splu", "scipy.sparse.linalg.factorized", "scipy.linalg.solveh_banded", "scipy.linalg.lu_solve",
+    "scipy.sparse.linalg.splu.solve",
 }
 ITERATIVE_SOLVERS = {
     "scipy.sparse.linalg." + n
@@ -164,11 +165,25 @@ def sim_step(ctx, cls_name, it=None, args=None):
                 e.data.setdefault("callee", fac.qual)
                 e.data["args_solve"] = {"A": fac.args.get("A", fac.args.get("0")), "b": e.data["args"][0]}
                 sol.append(e)
+            elif e.kind == "method_call" and e.data.get("meth") == "solve" and e.data.get("args") and "0" in e.data["args"]:
+                # lu = splu(A); x = lu.solve(b): one direct solve with matrix A - or with whatever an earlier iteration
+                # left in `lu` (a carried name: the system-carried-over clause then asks what it was built from)
+                recv = e.data.get("recv")
+                A_ = None
+                if isinstance(recv, ExtObj) and recv.qual in LU_FACTORIES:
+                    A_ = recv.args.get("A", recv.args.get("0"))
+                elif isinstance(recv, Num) and any(s_.endswith("@carried") for s_ in nf.symbols(recv.nf)):
+                    A_ = recv
+                if A_ is not None:
+                    e.data.setdefault("callee", "scipy.sparse.linalg.splu.solve")
+                    e.data["args_solve"] = {"A": A_, "b": e.data["args"]["0"]}
+                    sol.append(e)
         out.append((p, sol))
     return it, f, out
 
 
-FACTORIES = {"scipy.sparse.linalg.factorized"}
+FACTORIES = {"scipy.sparse.linalg.factorized", "scipy.sparse.linalg.splu", "scipy.linalg.lu_factor"}
+LU_FACTORIES = {"scipy.sparse.linalg.splu"}
 CONVERSIONS = ("tocsc", "tocsr", "tocoo", "tolil", "todia", "asformat", "copy")
 
 
